@@ -3,10 +3,42 @@ import Glom.Spec.Lexical
 namespace Glom.C07.Driver
 open Lean Glom.Interp Glom.Interp.Codec Glom.Interp.Run
 
+/-- `Match({…, <binding key>: T, Optional(k, default=D): T})`: the default is evaluated by
+    `arg_val(target, D, scope)` at the Match dict's own scope (matching.py `_handle_dict`, after the
+    item loop), so it sees what is visible where the Match is written and nothing the keys of the
+    items bound.  Reference: D in argument position at the top-level lexical scope (Optional keys are
+    not constructs of the proved `Spec` type: this observation is checked against the lexical model
+    of D only). -/
+def runOptDefault (j : Json) : Except String Json := do
+  let d ← specOfJson (← j.getObjVal? "dflt")
+  let target ← vOfJson (← j.getObjVal? "target")
+  let scope ← (match j.getObjVal? "scope" with
+    | .ok (.arr a) => a.toList.mapM (fun e => match e with
+        | .arr #[.str n, v] => do return (n, ← vOfJson v)
+        | _ => throw s!"bad scope entry {e.compress}")
+    | _ => pure [])
+  let impl ← j.getObjVal? "impl"
+  let implRes : Except String V ← (match impl.getObjVal? "ok" with
+    | .ok v => do return .ok (← vOfJson v)
+    | .error _ => do return .error (← impl.getObjValAs? String "err"))
+  let (_, rres) := glomTopLex prims 64 (.coalesce [] (some d) Option.none .never []) target scope {}
+  let refRes : Except String V := match rres with | .ok v => .ok v | .error e => .error e.cls
+  if outOfDomain refRes then
+    return Json.mkObj [("skip", true), ("why", "outside the modelled domain")]
+  let repeatSame := (j.getObjValAs? Bool "impl_repeat_same").toOption.getD true
+  let same := resEq refRes implRes
+  return Json.mkObj [("agree", same), ("holds", same && repeatSame),
+    ("why", if !same then "the default of an Optional key saw a binding made by the key of a sibling item (or missed an outer one)"
+            else if !repeatSame then "a second identical call behaved differently (state outlived the call)" else ""),
+    ("model", Json.mkObj [("res", resToJson refRes)]),
+    ("branch", match refRes with | .ok _ => "optdefault-ok" | .error e => s!"optdefault-err-{e}")]
+
 /-- C07 checker: what every reader returned (value or PathAccessError) — hence the result of the
     call — is what the lexically scoped model yields; the caller's scope mapping is untouched; a
     second call with the same arguments behaves like the first (nothing outlives a call). -/
 def run (j : Json) : Except String Json := do
+  if (j.getObjValAs? String "kind").toOption == some "optdefault" then
+    return ← runOptDefault j
   let c ← decode j
   let (mres, mlog) := runModel c
   if outOfDomain mres then
